@@ -94,6 +94,11 @@ Calls ==
     Call("setint", <<[oi |-> 14, ii |-> 1]>>, "x", 0, "6", <<>>),
     Call("setint", T1, "x", 0, "8", <<>>),      Call("addlist", T1, "tl", 0, "", <<"z">>),
     Call("setint", SEC, "x", 0, "6", <<>>),     Call("addlist", SEC, "l", 0, "", <<"1">>),
+    (* list calls on sections, numerals that are a radix prefix without digits *)
+    Call("setlist", <<>>, "m", 0, "", <<"3">>),  Call("addlist", <<>>, "t", 0, "", <<"3">>),
+    Call("setlist", <<>>, "sec", 0, "", <<"3">>),
+    Call("setmulti", <<>>, "l", 0, "", <<"3", "0x">>), Call("setopt", <<>>, "i", 0, "0x", <<>>),
+    Call("setopt", <<>>, "l", 0, "0b", <<>>),
     Call("setint", <<>>, "vi", 0, "4", <<>>),   Call("setstr", <<>>, "vs", 0, "r", <<>>),
     Call("setfloat", <<>>, "vf", 0, "2.25", <<>>) }
   \cup (IF Sch = 2
